@@ -43,6 +43,22 @@ Theorem C11_insert_batch_path_atomic : forall f ctx d t ok rows d' log o tb,
 Proof. exact exec_insert_no_triggers_atomic. Qed.
 Print Assumptions C11_insert_batch_path_atomic.
 
+(** INSERT ... SELECT * through the bulk-transfer path (compatible schemas, no INSERT trigger on the destination):
+    since fixes 3f052076 / C11-bulk-transfer-validate-first every source row is validated before the first insert, so
+    a failure at any source row leaves the database exactly as it was and a success appends every source row
+    (this was the known class insert-select-bulk-transfer-partial) *)
+Theorem C11_bulk_transfer_atomic : forall fuel ctx d t src dst s d' log o,
+  exec fuel ctx d (SInsertSel t src true) = (d', log, o) ->
+  get_table d t = Some dst -> get_table d src = Some s ->
+  is_none (hd_error (triggers_for_table (d_trigs d) t EvInsert)) && bulk_eligible dst s = true ->
+  log = [] /\
+  match o with
+  | Err _ _ m => d' = d /\ m = 0
+  | Ok n => n = length (tb_rows s) /\ d' = fold_left (fun d0 r => push_row d0 t r) (tb_rows s) d
+  end.
+Proof. exact exec_bulk_transfer_atomic. Qed.
+Print Assumptions C11_bulk_transfer_atomic.
+
 (** successful multi-row statements apply all of their rows.  Side conditions: the bodies of the database's triggers,
     run on any database with the same tables and triggers, do not touch the statement's own table ([frame_on f d t];
     otherwise "its rows" is not well defined -- met e.g. by audit-style bodies, C11_frame_condition_satisfiable), table
@@ -119,10 +135,6 @@ Print Assumptions C11_delete_after_row_trigger_refuted.
 Theorem C11_no_action_after_cascade_refuted : exists d st, wf d /\ changed_after_error d st (AtCascade 1) 1.
 Proof. exact known_update_no_action_after_cascade. Qed.
 Print Assumptions C11_no_action_after_cascade_refuted.
-
-Theorem C11_bulk_transfer_partial_refuted : exists d st, wf d /\ changed_after_error d st (AtBulk 1) 1.
-Proof. exact known_bulk_transfer_partial. Qed.
-Print Assumptions C11_bulk_transfer_partial_refuted.
 
 Theorem C11_update_type_mismatch_partial_refuted : exists d st, wf d /\ changed_after_error d st (AtApply 1) 1.
 Proof. exact known_update_type_mismatch_partial. Qed.
